@@ -8,7 +8,7 @@ W=$(mktemp -d /tmp/vseed-XXXXXX)
 trap 'git -C /repo worktree remove --force "$W/repo" >/dev/null 2>&1; rm -rf "$W"' EXIT
 git -C /repo worktree add --detach "$W/repo" HEAD -q || exit 2
 if [ "$P" != "/dev/null" ]; then
-  git -C "$W/repo" apply "$P" || { echo "patch does not apply"; exit 2; }
+  git -C "$W/repo" apply "$P" 2>/dev/null || (cd "$W/repo" && patch -p1 -F3 -s < "$P") || { echo "patch does not apply"; exit 2; }
 fi
 rsync -a --exclude .git --exclude evidence --exclude replays --exclude seeded /verif/ "$W/verif/"
 sed -i "s|=> /repo|=> $W/repo|" "$W/verif/go.mod"
